@@ -291,6 +291,16 @@ Definition op_copy_within_w (oc : bool) (v : view) (b : buf) (x0 y0 x1 y1 dx dy 
   | r => r
   end.
 
+(** ** clone_from_slice / clone_from_toodee interrupted by a panicking Clone (C11).
+    Every implementation clones cell by cell in row-major order of the receiver
+    ([recv_cells]); when the k-th call panics the first k cells hold their new values
+    (taken from [b'], the buffer the completed call would leave) and the rest are untouched *)
+Definition recv_cells (v : view) : list nat :=
+  flat_map (fun r => map (fun c => v_cell v c r) (seq 0 (vcols v))) (seq 0 (vrows v)).
+Definition partial_clone (b b' : buf) (pos : list nat) (k : nat) : buf :=
+  fold_left (fun acc i => match nth_error b' i with Some x => upd i x acc | None => acc end)
+            (firstn k pos) b.
+
 (** * translate_with_wrap, flip_rows, flip_cols (translate.rs) *)
 Definition rotate_win (b : buf) (w : sl) (mid : nat) : res buf :=
   _ <- assert (mid <=? len w) ;;
